@@ -677,6 +677,12 @@ def run(ctx):
     ctx.assumptions = ["viewBox width/height and viewport sizes are positive (usvg rejects others before to_transform)",
                        "exact rational arithmetic; implementation compared within 2e-4 relative tolerance"]
     broken = ctx.translate()
+    # the scale law also depends on the SHARED anchor `max_bbox` (Gen/Consts.v MAXBB_*, listed for C02/C13/C14/C19 by translate.py)
+    # and on Gen/RenderLimit.v (tools/gen_renderlimit.py): a broken max_bbox tie is a broken tie for C17 too
+    for b in getattr(ctx, 'status', {}).get('broken', []):
+        if b.get('name') == 'max_bbox' and b not in broken:
+            ctx.log("broken tie (shared anchor C17 depends on): %s" % b.get('err'))
+            broken.append(b)
     res = ctx.coq_props()
     proof_ok = res['ok'] and not broken
     if proof_ok and not quick:
@@ -907,6 +913,48 @@ def run(ctx):
         if r['nbig'] > 4 or r['ndiff'] > max(24, r['nonblank'] * 40 // 100):
             ctx.violation("rendering with root scale %s differs from the document with width/height x %s (%d pixels, max delta %d)"
                           % (s, s, r['ndiff'], r['max']), dict(docA=da, docB=db, scale=s, result=r))
+    # ---- S3b (round 5, after missed seed C17-17): the scale law at LARGE root scales on SMALL documents whose whole canvas is
+    # covered by isolated groups (opacity / clip-path / mask / filter / blend: each is rendered through a layer that is limited by
+    # resvg's `max_bbox`).  Content is pixel aligned (integer coordinates, scales 0.5 and integers), measured noise: 0 pixels.
+    big_items, big_metas = [], []
+    iso_kinds = {
+        'opacity': '<g opacity="0.5"><rect width="%(w)s" height="%(h)s" fill="#c00000"/></g>',
+        'clip': '<clipPath id="c"><rect width="%(w)s" height="%(h)s"/></clipPath><g clip-path="url(#c)"><rect width="%(w)s" height="%(h)s" fill="#00a000" fill-opacity="0.5"/></g>',
+        'mask': '<mask id="m" maskUnits="userSpaceOnUse" x="0" y="0" width="%(w)s" height="%(h)s"><rect width="%(w)s" height="%(h)s" fill="white"/></mask>'
+                '<g mask="url(#m)"><rect width="%(w)s" height="%(h)s" fill="#0000c0" fill-opacity="0.5"/></g>',
+        'filter': '<filter id="f" filterUnits="userSpaceOnUse" x="0" y="0" width="%(w)s" height="%(h)s"><feColorMatrix type="saturate" values="0.5"/></filter>'
+                  '<g filter="url(#f)"><rect width="%(w)s" height="%(h)s" fill="#c0a000" fill-opacity="0.5"/></g>',
+        'blend': '<g style="mix-blend-mode:multiply"><rect width="%(w)s" height="%(h)s" fill="#a0a0ff"/></g>',
+    }
+    sizes = [(16, 16), (24, 24), (20, 12)]
+    for (w, h) in sizes:
+        combos = [('all', ''.join(iso_kinds[k] for k in ('opacity', 'clip', 'mask', 'filter', 'blend')))]
+        if not quick:
+            combos += [(k, iso_kinds[k]) for k in iso_kinds]
+        for name, body in combos:
+            content = '<rect width="%d" height="%d" fill="#ffffff"/>' % (w, h) + body % dict(w=w, h=h) + \
+                      '<rect x="%d" y="%d" width="4" height="4" fill="#102030"/>' % (w - 4, h - 4)
+            head = '<svg %s width="%%s" height="%%s" viewBox="0 0 %d %d">%s</svg>' % (NS, w, h, content)
+            for sc in (0.5, 2, 3, 8, 16, 32, 50):
+                da = head % (w, h)
+                db = head % (fs(Fraction(w) * Fraction(sc)), fs(Fraction(h) * Fraction(sc)))
+                big_items.append("-\t%s\t%s,0,0,%s,0,0\t%s\t1,0,0,1,0,0\t%d\t%d\t8" % (da, sc, sc, db, int(w * sc), int(h * sc)))
+                big_metas.append((da, db, sc, name))
+    bouts = ctx.rvh_batch(binp, 'render-pair', big_items, per_item_timeout=60)
+    for (da, db, sc, name), o in zip(big_metas, bouts):
+        try:
+            r = json.loads(o)
+        except (TypeError, ValueError):
+            r = {'error': 'unparsable'}
+        ctx.note_case("scale-iso/%s/%s/%s" % (name, da, sc), nontrivial=r.get('nonblank', 0) > 0)
+        if 'ndiff' not in r:
+            ctx.violation("scale-law render failed (isolated groups, scale %s): %s" % (sc, str(r)[:200]), dict(docA=da, docB=db, scale=sc))
+            continue
+        if r['nbig'] > 0 or r['ndiff'] > 0:
+            ctx.violation("rendering with root scale %s differs from the document with width/height x %s on a canvas covered by isolated "
+                          "groups (%s): %d pixels, max delta %d" % (sc, sc, name, r['ndiff'], r['max']),
+                          dict(docA=da, docB=db, scale=sc, result=r, replay="rvh render-pair: docA under scale s vs docB under the identity"))
+    ctx.cov['scale_law_isolated_renders'] = len(big_items)
     ctx.cov['scale_law_renders'] = len(items)
     # ---- S4: the scale law through the node-export entry point (render_node): exporting a node of T under a
     # root scale s equals exporting the same node of the document resized by s.
